@@ -36,6 +36,10 @@ func runC02(c *Ctx, r *Report) {
 	collectionKeepsAll(c, r, "R-C02.11")
 	r.Doc("R-C02.12", "a log's index is its own: OrderedMap.Copy returns a newly built map on every path and NewLog stores a copy of the entries it is given")
 	orderedMapCopyFresh(c, r, "R-C02.12")
+	r.Doc("R-C02.13", "the merge files every new item under every one of its predecessor links (adopted from C01: a hole in the predecessor index makes a later merge from a lagging replica turn a referenced entry into a head)")
+	importRules(c, r, "C01", []string{"R-C01.4"}, "R-C02.13")
+	r.Doc("R-C02.14", "the keys of a head set are only read: nobody filters, sorts or appends onto the key slice an entry map hands out (adopted from C05: the merging log would edit the head set of the log it merges from, which loses a head nothing references)")
+	importRules(c, r, "C05", []string{"R-C05.13"}, "R-C02.14")
 	r.Doc("R-C02.9", "the predecessor index that decides which entries are referenced is keyed by predecessor links of the filed entry (not by its references, not by another list)")
 	indexKeys(c, r, "R-C02.9")
 
